@@ -212,6 +212,48 @@ func (ip *Interp) model2(fn *ssa.Function, name string, args []AV) (AV, bool) {
 			return strSlice(ip, ss), true
 		}
 		ood("%s", name)
+	case "maps.Values":
+		m, ok := args[0].(*MapV)
+		if !ok {
+			return &SeqV{}, true
+		}
+		ip.MapOrderUsed = true
+		ks := append([]string{}, m.Keys...)
+		sort.Strings(ks)
+		if ip.MapDesc {
+			for i, j := 0, len(ks)-1; i < j; i, j = i+1, j-1 {
+				ks[i], ks[j] = ks[j], ks[i]
+			}
+		}
+		var items []AV
+		for _, k := range ks {
+			items = append(items, copyVal(m.M[k]))
+		}
+		return &SeqV{Items: items}, true
+	case "slices.Values":
+		if sv, ok := args[0].(*SliceV); ok {
+			return &SeqV{Items: sv.elems()}, true
+		}
+		return &SeqV{}, true
+	case "slices.AppendSeq", "slices.Collect":
+		var cur []AV
+		seqArg := args[len(args)-1]
+		if name == "slices.AppendSeq" {
+			if sv, ok := args[0].(*SliceV); ok {
+				cur = sv.elems()
+			}
+		}
+		sq, ok := seqArg.(*SeqV)
+		if !ok {
+			ood("%s over %s", name, avString(seqArg))
+		}
+		cur = append(cur, sq.Items...)
+		if len(cur) == 0 {
+			return args[0], true
+		}
+		return ip.mkSlice(cur), true
+	case "slices.Grow", "slices.Clip":
+		return args[0], true
 	case "sort.Strings", "slices.Sort":
 		if sv, ok := args[0].(*SliceV); ok {
 			ss := avStrings(sv)
